@@ -15,10 +15,12 @@ import GoMC.Lemmas.Chat
 import GoMC.Model.ChatWire
 import GoMC.Props.C02
 import GoMC.Props.C17
+import GoMC.Lemmas.NBTTyped
 namespace GoMC.Lemmas.C08
 open GoMC GoMC.Model GoMC.Spec
 open GoMC.Lemmas hiding noPanic_readAll noPanic_readByte1 noPanic_bool noPanic_byte noPanic_fix noPanic_varLongRead noPanic_string noPanic_byteArray noPanic_longs noPanic_bitSet noPanic_position noPanic_plugin noPanic_lenDec noPanic_decElems noPanic_ary noPanic_option noPanic_pair noPanic_codec
 open GoMC.Model.Chunk GoMC.Lemmas.ChunkWire
+open GoMC.Lemmas.DynBT (Cons cons_pure cons_fail cons_crash cons_readFull cons_readByte cons_bind cons_ite)
 
 /-! ### paletted container -/
 
@@ -212,5 +214,380 @@ theorem total_registry_typed (cx : Go.SnbtCarrier) (hsn : ∀ tag s, (cx.unmarsh
     (Registry.readFrom (Go.fieldRead cx true ty ty.zero) s).1 ≠ Res.panic :=
   noPanic_regReadFrom _ (fun s => GoMC.Props.C02.C02_field_read_no_panic cx true ty ty.zero
     (fun tag s => GoMC.Props.DYNBT.DYNBT_total tag s) hsn (GoMC.Lemmas.NBTTotal.zero_good ty) s) s
+
+
+/-! ## Phase 2: work bounds for the part-2 decoders; the NBT form of chat.Message and the chat-type header -/
+
+/-! ### work bound: paletted container -/
+
+/-- loop bodies STARTED by the palette loop `for i := 0; i < size; i++ { value.ReadFrom(r) … }` -/
+def readValsIters : List Int → Stream → Nat
+  | [], _ => 0
+  | _ :: old, s =>
+    1 + (match varIntRead s with
+      | (.ok _, s') => readValsIters old s'
+      | _ => 0)
+
+theorem readVals_bound (cells : List Int) (s : Stream) :
+    readValsIters cells s + (readVals cells s).2.flat.length ≤ s.flat.length + 1 := by
+  induction cells generalizing s with
+  | nil => simp [readValsIters, readVals]
+  | cons o old ih =>
+    unfold readValsIters readVals
+    rcases h : varIntRead s with ⟨r, s'⟩
+    have c := cons_run cons_varIntRead h
+    cases r with
+    | ok a =>
+      have := ih s'
+      have := c.2 a rfl
+      simp only
+      omega
+    | err => simp only; omega
+    | panic => simp only; omega
+
+/-- iterations of the palette's own read loop -/
+def palIters : Pal → Stream → Nat
+  | .indirect _ vals cap bits, st =>
+    match varIntRead st with
+    | (.ok (size, _), s1) =>
+      if size.toInt < 0 then 0
+      else if size.toInt > (2 : Int) ^ bits.toNat then 0
+      else
+        let k := size.toNat
+        readValsIters (if k > cap then List.replicate k 0 else (vals ++ List.replicate (cap - vals.length) 0).take k) s1
+    | _ => 0
+  | _, _ => 0
+
+theorem palIters_bound (p : Pal) (s : Stream) : palIters p s + (p.readFrom s).2.2.flat.length ≤ s.flat.length + 1 := by
+  cases p with
+  | single v =>
+    simp only [palIters, Pal.readFrom]
+    rcases h : varIntRead s with ⟨r, s'⟩
+    have c := cons_run cons_varIntRead h
+    cases r <;> simp only <;> omega
+  | global => simp [palIters, Pal.readFrom]
+  | indirect hh vals cap bits =>
+    simp only [palIters, Pal.readFrom]
+    rcases h : varIntRead s with ⟨r, s1⟩
+    have c := cons_run cons_varIntRead h
+    cases r with
+    | ok a =>
+      obtain ⟨size, n⟩ := a
+      simp only
+      have c2 := c.2 _ rfl
+      by_cases h1 : size.toInt < 0
+      · simp only [h1, if_true]; omega
+      · simp only [h1, if_false]
+        by_cases h2 : size.toInt > (2 : Int) ^ bits.toNat
+        · simp only [h2, if_true]; omega
+        · simp only [h2, if_false]
+          have := readVals_bound (if size.toNat > cap then List.replicate size.toNat 0 else (vals ++ List.replicate (cap - vals.length) 0).take size.toNat) s1
+          omega
+    | err => simp only; omega
+    | panic => simp only; omega
+
+/-- `PaletteContainer.ReadFrom`: (iterations of the palette loop, iterations of the data-array loop) -/
+def contIters (c : Container) (s : Stream) : Nat × Nat :=
+  match Rd.readByte s with
+  | (.ok b, s1) =>
+    let p := c.cfg.create (b.toNat : Int)
+    (palIters p s1,
+      match p.readFrom s1 with
+      | (.ok _, _, s2) => readFromIters c.data s2
+      | _ => 0)
+  | _ => (0, 0)
+
+theorem contIters_bound (c : Container) (s : Stream) :
+    (contIters c s).1 + 8 * (contIters c s).2 + (c.readFrom s).2.2.flat.length ≤ s.flat.length + 8 := by
+  unfold contIters Container.readFrom
+  rcases h : Rd.readByte s with ⟨r, s1⟩
+  have c0 := cons_run cons_readByte h
+  cases r with
+  | ok b =>
+    have c1 := c0.2 b rfl
+    simp only
+    have hp := palIters_bound (c.cfg.create (b.toNat : Int)) s1
+    rcases h2 : (c.cfg.create (b.toNat : Int)).readFrom s1 with ⟨r2, p, s2⟩
+    rw [h2] at hp
+    simp only at hp
+    cases r2 with
+    | ok n1 =>
+      simp only
+      have hd := readFromIters_bound c.data s2
+      rcases h3 : c.data.readFrom s2 with ⟨r3, d, s3⟩
+      rw [h3] at hd
+      simp only at hd
+      cases r3 <;> simp only <;> omega
+    | err => simp only; omega
+    | panic => simp only; omega
+  | err => simp only; omega
+  | panic => simp only; omega
+
+
+/-! ### work bound: section -/
+open GoMC.Model.Chunk in
+/-- `Section.ReadFrom`: palette-loop and data-loop iterations of the two containers -/
+def secIters (sec : WSec) (s : Stream) : Nat × Nat :=
+  match fixDec 2 sec.count s with
+  | (.ok _, s1) =>
+    let i1 := contIters sec.states s1
+    match sec.states.readFrom s1 with
+    | (.ok _, _, s2) =>
+      let i2 := contIters sec.biomes s2
+      (i1.1 + i2.1, i1.2 + i2.2)
+    | _ => i1
+  | _ => (0, 0)
+
+open GoMC.Model.Chunk in
+theorem secIters_bound (gbS gbB : Int) (sec : WSec) (s : Stream) :
+    (secIters sec s).1 + 8 * (secIters sec s).2 + (Section.readFrom gbS gbB sec s).2.flat.length ≤ s.flat.length + 16 := by
+  unfold secIters Section.readFrom
+  show _ + _ + ((pairDec shortC (pairC (containerC (blocksCfg gbS)) (containerC (biomesCfg gbB))) sec.core >>= _) s).2.flat.length ≤ _
+  unfold pairDec
+  rcases h : fixDec 2 sec.count s with ⟨r, s1⟩
+  have c0 := cons_run (cons_fix 2 sec.count) h
+  have h' : shortC.dec sec.core.1 s = (r, s1) := h
+  cases r with
+  | ok a =>
+    simp only [Rd.bind_apply, h']
+    have b1 := contIters_bound sec.states s1
+    have hs : sec.core.2.1 = sec.states := rfl
+    have hb : sec.core.2.2 = sec.biomes := rfl
+    simp only [pairC, pairDec, containerC, containerDec, Rd.bind_apply, hs, hb]
+    rcases h2 : sec.states.readFrom s1 with ⟨r2, d2, s2⟩
+    rw [h2] at b1
+    simp only at b1
+    cases r2 with
+    | ok n1 =>
+      simp only
+      have b2 := contIters_bound sec.biomes s2
+      rcases h3 : sec.biomes.readFrom s2 with ⟨r3, d3, s3⟩
+      rw [h3] at b2
+      simp only at b2
+      cases r3 <;> simp only [Rd.pure_apply] <;> omega
+    | err => simp only; omega
+    | panic => simp only; omega
+  | err => simp only [Rd.bind_apply, h']; omega
+  | panic => simp only [Rd.bind_apply, h']; omega
+
+/-! ### registry over a typed element: the element decoder never gives bytes back -/
+
+theorem closed_cons0 : NBTDecode.Closed (fun {α} (p : Rd α) => Cons 0 p) where
+  pure := fun a => cons_pure a
+  fail := cons_fail 0
+  readFull := fun n => (cons_readFull n).weaken (Nat.zero_le _)
+  readByte := cons_readByte.weaken (Nat.zero_le _)
+  bind := fun hp hf => cons_bind0 hp hf
+  ite := fun hp hq => cons_ite hp hq
+
+theorem cons0_dynUnmarshal (tag : Byte) : Cons 0 (DynBT.unmarshal tag) := by
+  intro s
+  exact GoMC.Lemmas.DynBT.cons0_unm (s.flat.length + 2) tag s
+
+theorem cons0_decodeInto (cx : Go.SnbtCarrier) (hsn : ∀ tag, Cons 0 (cx.unmarshal tag)) (net disallow : Bool)
+    (ty : Go.GoType) (old : Go.GoVal) : Cons 0 (Go.decodeInto cx net disallow ty old) := by
+  intro u
+  unfold Go.decodeInto
+  have hh := NBTDecode.closed_readHead closed_cons0 net
+  have hu := GoMC.Lemmas.NBTTyped.closedC_typed closed_cons0 (cons_crash 0) cx disallow cons0_dynUnmarshal hsn
+    (Go.typedFuel u ty old)
+  exact (closed_cons0.bind hh (fun x => by
+    obtain ⟨tg, nm⟩ := x
+    exact closed_cons0.bind (hu ty old tg) (fun _ => closed_cons0.pure _))) u
+
+theorem cons0_fieldRead (cx : Go.SnbtCarrier) (hsn : ∀ tag, Cons 0 (cx.unmarshal tag)) (allow : Bool)
+    (ty : Go.GoType) (old : Go.GoVal) : Cons 0 (Go.fieldRead cx allow ty old) := by
+  intro s
+  have h := cons0_decodeInto cx hsn true (!allow) ty old s
+  unfold Go.fieldRead
+  rcases hd : Go.decodeInto cx true (!allow) ty old s with ⟨r, s1⟩
+  rw [hd] at h
+  cases r with
+  | ok a => simp only; exact ⟨h.1, fun _ _ => by have := h.1; omega⟩
+  | err =>
+    simp only
+    split
+    · exact ⟨h.1, fun _ _ => by have := h.1; omega⟩
+    · exact ⟨h.1, fun _ hh => by simp at hh⟩
+  | panic => simp only; exact ⟨h.1, fun _ hh => by simp at hh⟩
+
+/-! ### chat-type header, translation arguments -/
+
+open GoMC.Model.Chat GoMC.Model.ChatNBT
+
+/-- `typeDec` never panics when the decoder of the two names does not -/
+theorem typeDec_noPanic {α : Type} (msgC : Codec α) (old : ChatTypeOf α)
+    (hs : ∀ s, (msgC.dec old.sender s).1 ≠ Res.panic) (hz : ∀ s, (msgC.dec msgC.zero s).1 ≠ Res.panic) (s : Stream) :
+    (typeDec msgC old s).1 ≠ Res.panic := by
+  unfold typeDec
+  refine noPanic_bind noPanic_varIntRead (fun x => ?_) s
+  refine noPanic_bind hs (fun y => ?_)
+  refine noPanic_bind (noPanic_bool false) (fun z => ?_)
+  obtain ⟨has, n3⟩ := z
+  cases has with
+  | true => exact noPanic_bind hz (fun _ => noPanic_pure _)
+  | false => exact noPanic_pure _
+
+/-- `(*chat.Type).ReadFrom` never panics when decoding into the old sender name does not -/
+theorem typeRead_noPanic (old : ChatTypeOf Go.GoVal) (hs : ∀ s, (readFromInto old.sender s).1 ≠ Res.panic)
+    (hz : ∀ s, (readFromInto messageTy.zero s).1 ≠ Res.panic) (s : Stream) : (typeRead old s).1 ≠ Res.panic := by
+  unfold typeRead
+  exact typeDec_noPanic nameCodec old hs hz s
+
+theorem readFromInto_zero_noPanic (s : Stream) : (readFromInto messageTy.zero s).1 ≠ Res.panic :=
+  (GoMC.Props.C17.C17_nbt_decode_never_panics 0 s).2.1
+
+theorem readFromInto_goOf_noPanic (m : Msg) (s : Stream) : (readFromInto (goOf m) s).1 ≠ Res.panic :=
+  (GoMC.Props.C17.C17_nbt_decode_never_panics (chatFuel s) s).2.2 m
+
+theorem unread_head (b : Byte) (s : Stream) :
+    NBT.readHead true { s with chunks := [b] :: s.chunks } = (Res.ok (b, []), s) := by
+  obtain ⟨chunks, failing⟩ := s
+  simp only [NBT.readHead, if_true, Rd.bind_apply, Rd.readByte, Stream.flat, List.flatten_cons, List.singleton_append]
+  have : Stream.drop { chunks := [b] :: chunks, failing := failing } 1 = { chunks := chunks, failing := failing } := by
+    unfold Stream.drop
+    simp only [Stream.dropChunks, Nat.one_ne_zero, if_false, List.length_singleton, Nat.lt_irrefl, Nat.sub_self]
+    cases chunks <;> simp [Stream.dropChunks]
+  rw [this]
+  rfl
+
+/-- `(*TranslateArgs).UnmarshalNBT` on a typed array (byte / int / long array: numeric arguments): when decoding the
+array into ANY slice fails at this position, so does the hook — whatever the arguments decoded so far -/
+theorem chat_args_err (f : Nat) (old : Go.GoVal) (tag : Byte) (htag : tag = 7#8 ∨ tag = 11#8 ∨ tag = 12#8) (s : Stream)
+    (hslice : ∀ (e : Go.GoType) (o : Go.GoVal), (Go.umSlice (chatUm f) e o tag s).1 = Res.err) :
+    (argsUm (chatUm (f + 1)) old tag s).1 = Res.err := by
+  have key : ∀ (e : Go.GoType) (o : Go.GoVal), e ≠ .dyn →
+      (chatUm (f + 1) (.slice e) o tag s).1 = Res.err := by
+    intro e o he
+    unfold chatUm
+    have h1 : isMsgTy (.slice e) = false := rfl
+    have h2 : isArgsTy (.slice e) = false := by
+      cases e <;> first | rfl | exact absurd rfl he
+    simp only [h1, h2, Bool.false_eq_true, if_false]
+    exact hslice e o
+  have run : ∀ {α : Type} (e : Go.GoType) (o : Go.GoVal) (k : Go.GoVal → Rd α), e ≠ .dyn →
+      ((unread tag (do
+        let (t, _) ← NBT.readHead true
+        let v ← chatUm (f + 1) (.slice e) o t
+        k v)) s).1 = Res.err := by
+    intro α e o k he
+    unfold unread
+    simp only [Rd.bind_apply, unread_head]
+    have := key e o he
+    rcases hr : chatUm (f + 1) (.slice e) o tag s with ⟨r, s2⟩
+    rw [hr] at this
+    simp only at this
+    subst this
+    rfl
+  rcases htag with rfl | rfl | rfl
+  · unfold argsUm
+    simp only [show (7#8 : Byte).toNat = 7 from rfl]
+    exact run _ _ _ (by intro hc; cases hc)
+  · unfold argsUm
+    simp only [show (11#8 : Byte).toNat = 11 from rfl]
+    exact run _ _ _ (by intro hc; cases hc)
+  · unfold argsUm
+    simp only [show (12#8 : Byte).toNat = 12 from rfl]
+    exact run _ _ _ (by intro hc; cases hc)
+
+theorem readFull_short (k : Nat) (s : Stream) (h : s.flat.length < k) : Rd.readFull k s = (Res.err, s.drained) := by
+  unfold Rd.readFull
+  have : ¬ k ≤ s.flat.length := by omega
+  simp [this]
+
+theorem readFull_ok (k : Nat) (s : Stream) (h : k ≤ s.flat.length) :
+    Rd.readFull k s = (Res.ok (s.flat.take k), s.drop k) := by
+  unfold Rd.readFull; simp [h]
+
+theorem readInts_short : ∀ (n : Nat) (s : Stream), s.flat.length < 4 * n → (NBT.readInts n s).1 = Res.err
+  | 0, _, h => by omega
+  | n + 1, s, h => by
+    unfold NBT.readInts NBT.readInt32
+    by_cases h4 : 4 ≤ s.flat.length
+    · simp only [Rd.bind_apply, readFull_ok 4 s h4, Rd.pure_apply]
+      have := readInts_short n (s.drop 4) (by simp; omega)
+      rcases hr : NBT.readInts n (s.drop 4) with ⟨r, s2⟩
+      rw [hr] at this
+      simp only at this
+      subst this
+      rfl
+    · simp only [Rd.bind_apply, readFull_short 4 s (by omega)]
+
+theorem readLongs_short : ∀ (n : Nat) (s : Stream), s.flat.length < 8 * n → (NBT.readLongs n s).1 = Res.err
+  | 0, _, h => by omega
+  | n + 1, s, h => by
+    unfold NBT.readLongs NBT.readInt64
+    by_cases h8 : 8 ≤ s.flat.length
+    · simp only [Rd.bind_apply, readFull_ok 8 s h8, Rd.pure_apply]
+      have := readLongs_short n (s.drop 8) (by simp; omega)
+      rcases hr : NBT.readLongs n (s.drop 8) with ⟨r, s2⟩
+      rw [hr] at this
+      simp only at this
+      subst this
+      rfl
+    · simp only [Rd.bind_apply, readFull_short 8 s (by omega)]
+
+/-- width of one element of a typed array -/
+def arrWidth (tag : Byte) : Nat := if tag = 7#8 then 1 else if tag = 11#8 then 4 else 8
+
+/-- a byte / int / long array whose declared length exceeds what the source holds, decoded into ANY slice type: an error -/
+theorem large_umSlice (rec : Go.Rec) (e : Go.GoType) (old : Go.GoVal) (tag : Byte) (s s' : Stream) (n : BitVec 32)
+    (htag : tag = 7#8 ∨ tag = 11#8 ∨ tag = 12#8)
+    (h : NBT.readInt32 s = (Res.ok n, s')) (hpos : n.msb = false) (hbig : s'.flat.length < arrWidth tag * n.toNat) :
+    (Go.umSlice rec e old tag s).1 = Res.err := by
+  have ha : Go.arrayLen s = (Res.ok n.toNat, s') := by
+    unfold Go.arrayLen
+    rw [Rd.bind_ok h]
+    simp [hpos]
+  have hr : (NBT.refuse tag s).1 = Res.err := by
+    rcases htag with rfl | rfl | rfl
+    · unfold NBT.refuse
+      simp only [show (7#8 : Byte).toNat = 7 from rfl]
+      rw [Rd.bind_ok h]
+      simp only [hpos, Bool.false_eq_true, if_false]
+      have : s'.flat.length < n.toNat := by simpa [arrWidth] using hbig
+      rw [Rd.bind_err (readFull_short _ _ this)]
+    · unfold NBT.refuse
+      simp only [show (11#8 : Byte).toNat = 11 from rfl]
+      rw [Rd.bind_ok h]; rfl
+    · unfold NBT.refuse
+      simp only [show (12#8 : Byte).toNat = 12 from rfl]
+      rw [Rd.bind_ok h]; rfl
+  have hg : (Go.refuseG (α := Go.GoVal) tag s).1 = Res.err := by
+    unfold Go.refuseG
+    rw [Rd.bind_apply]
+    rcases hx : NBT.refuse tag s with ⟨r, s2⟩
+    rw [hx] at hr
+    simp only at hr
+    subst hr
+    rfl
+  have fin : ∀ {α β : Type} (p : Rd α) (k : α → Rd β) (t : Stream), (p t).1 = Res.err → ((p >>= k) t).1 = Res.err := by
+    intro α β p k t hp
+    rw [Rd.bind_apply]
+    rcases hq : p t with ⟨r, t2⟩
+    rw [hq] at hp
+    simp only at hp
+    subst hp
+    rfl
+  rcases htag with rfl | rfl | rfl
+  · unfold Go.umSlice
+    simp only [show (7#8 : Byte).toNat = 7 from rfl]
+    split
+    · rw [Rd.bind_ok ha]
+      have : s'.flat.length < n.toNat := by simpa [arrWidth] using hbig
+      rw [Rd.bind_err (readFull_short _ _ this)]
+    · exact hg
+  · unfold Go.umSlice
+    simp only [show (11#8 : Byte).toNat = 11 from rfl]
+    split
+    · rw [Rd.bind_ok ha]
+      exact fin _ _ _ (readInts_short _ _ (by simpa [arrWidth] using hbig))
+    · exact hg
+  · unfold Go.umSlice
+    simp only [show (12#8 : Byte).toNat = 12 from rfl]
+    split
+    · rw [Rd.bind_ok ha]
+      exact fin _ _ _ (readLongs_short _ _ (by simpa [arrWidth] using hbig))
+    · exact hg
 
 end GoMC.Lemmas.C08
